@@ -1,11 +1,15 @@
 (* Property C16: the parser never panics and never accepts an altered frame.
-   Statements only; proofs in Proofs/CrcBurst.v.
+   Statements only; proofs in Proofs/CrcGen.v, CrcLinear.v, CrcBurst.v, CrcField.v.
    - Totality: the parser model (Model/Parser.v) has no panicking outcome by construction (it
      returns option); that the implementation agrees, including "panic" as an observable verdict,
      is decided by the PARSE stream on every run (after the repairs of D8).
    - Detection: CRC-8 and CRC-16 as used by the frame header / frame footer detect EVERY burst of
-     span <= 8 resp. <= 16 bits in messages of any length (linearity proved algebraically, the
-     register facts by complete sweeps over 2^8 / 2^16 states and all 2^8 / 2^16 burst windows).
+     span <= 8 resp. <= 16 bits in messages of any length.  Linearity of the bit-serial register is proved
+     algebraically (Proofs/CrcGen.v); the facts about the two registers (no non-zero state steps to zero on a zero
+     input; no non-zero window leaves the zero register at zero; loading a value through the data input equals
+     starting from it) follow from linear algebra over GF(2): the register maps are additive, an additive map on
+     W-bit numbers is determined by the W powers of two, and explicit left-inverse tables are checked on those
+     8 / 16 basis vectors (Proofs/CrcLinear.v, Proofs/CrcBurst.v) - no sweep over all 2^16 states.
    - The CRC field itself: the acceptance test "stored field = CRC of the preceding bytes" is equivalent to "the
      remainder of message ++ field is zero" (C16_crc16_accept_iff), hence a burst of span <= 16 (8) bits ANYWHERE in
      message ++ field - inside the message, inside the field, or straddling the boundary - leaves a stored field
